@@ -28,6 +28,7 @@ class Dump:
         self.ran = {}        # analysis -> bool
         self.consulted = []  # (analysis substring, item id): unstable facts that code generation looked up
         self.rootmod = None
+        self.roots = None
         self.complete = False
         for line in text.splitlines():
             p = line.split(" ")
@@ -76,6 +77,8 @@ class Dump:
                 self.ran[p[1]] = p[2] == "1"
             elif tag == "UNSTABLE":
                 self.unstable.append((p[1], " ".join(p[2:])))
+            elif tag == "ROOTS":
+                self.roots = [int(x) for x in p[1].split(",") if x] if len(p) > 1 else []
             elif tag == "ROOTMOD":
                 self.rootmod = int(p[1])
             elif tag == "END":
